@@ -16,7 +16,10 @@
 //! output: `id=<n> facts=<wl facts>|.. out=<scenario result>|... oracle=<ok|FAIL:sig,...>`
 use echo_verif_harness::*;
 use std::collections::BTreeMap;
+use warp_core::strand::make_strand_id;
 use warp_core::{
+    ActorId, AuthorityBinding, AuthorityDomainId, AuthorityDomainRef, CausalAuthority, CausalPosture, ForkStrandRequest,
+    OriginId, PostureDerivation, RetentionContractId, RetentionPosture, SealStrength,
     compute_commit_hash_v2, make_edge_id, make_head_id, make_intent_kind, make_node_id, make_type_id,
     AtomPayload, AttachmentKey, AttachmentValue, CheckpointRef, ConflictPolicy, CursorId, CursorRole, EdgeId,
     EdgeKey, EdgeRecord, Engine, EngineBuilder, Footprint, GraphStore, GraphView, Hash, HistoryError,
@@ -273,6 +276,8 @@ fn interp_rule() -> RewriteRule {
 // ------------------------------------------------------------------------------------------- world
 
 struct World {
+    runtime: WorldlineRuntime,
+    engine: Engine,
     provenance: ProvenanceService,
     wls: Vec<WorldlineId>,
     /// live[w][t] = worldline state the runtime held at worldline tick t (t = 0 is the registered base)
@@ -357,7 +362,7 @@ fn build_world(nwl: usize, prog: &str) -> World {
             }
         }
     }
-    World { provenance, wls, live, flags }
+    World { runtime, engine, provenance, wls, live, flags }
 }
 
 // ------------------------------------------------------------------------------------------- dumps
@@ -1049,6 +1054,197 @@ fn scen_fork(world: &World, f: &[&str], flags: &mut Vec<String>) -> String {
     out.join(";")
 }
 
+fn retention_posture() -> RetentionPosture {
+    let origin_id = OriginId::from_bytes([0x21; 32]);
+    let authority = AuthorityDomainRef::new(origin_id, AuthorityDomainId::from_bytes([0x22; 32]));
+    RetentionPosture::new(
+        CausalPosture::AuthorOnly,
+        PostureDerivation::ExplicitIntent,
+        CausalAuthority::new(
+            origin_id,
+            ActorId::from_bytes([0x23; 32]),
+            authority,
+            AuthorityBinding::LocalUnbound { origin: origin_id },
+            SealStrength::Advisory,
+        )
+        .expect("authority"),
+        RetentionContractId::from_bytes([0x24; 32]),
+        None,
+    )
+    .expect("retention posture")
+}
+
+/// `D:<wl>:<k>:<cps>:<prog2>`: fork a strand at tick k through WorldlineRuntime::fork_strand, let child (index 9) and
+/// parent (index 0) diverge by further super_ticks, then replay / seek both.  Oracle only.
+fn scen_diverge(nwl: usize, prog: &str, f: &[&str], flags: &mut Vec<String>) -> String {
+    let w: usize = f[1].parse().unwrap_or(0);
+    let k: u64 = f[2].parse().unwrap_or(0);
+    let mut world = build_world(nwl, prog);
+    let n = world.live[w].len() - 1;
+    let base = world.live[w][0].clone();
+    let parent = world.wls[w];
+    {
+        let ctx = Ctx::new(&world, w);
+        let mut store = world.provenance.clone();
+        let mut res = Vec::new();
+        place_cps(&ctx, &mut store, f[3], &mut res);
+        world.provenance = store;
+    }
+    let child = wl(50);
+    let child_head = WriterHeadKey { worldline_id: child, head_id: make_head_id("child-default") };
+    let request = ForkStrandRequest {
+        strand_id: make_strand_id("vf-strand"),
+        source_lane_id: parent,
+        fork_tick: wt(k),
+        child_worldline_id: child,
+        writer_heads: vec![WriterHead::with_routing(child_head, PlaybackMode::Play, InboxPolicy::AcceptAll, None, true)],
+        retention_posture: retention_posture(),
+    };
+    let r = world.runtime.fork_strand(&mut world.provenance, request);
+    if k as usize >= n {
+        if r.is_ok() {
+            flags.push(format!("diverge:fork_strand-beyond-history-accepted@{k}"));
+        }
+        return format!("D:rejected:{}", r.is_err());
+    }
+    if let Err(e) = r {
+        flags.push(format!("diverge:fork_strand-failed@{k}:{}", format!("{e:?}").chars().take(60).collect::<String>()));
+        return "D:forkerr".into();
+    }
+    // expected states of the child: the source prefix, then whatever the child commits live
+    let mut child_live: Vec<WorldlineState> = world.live[w][..=(k as usize + 1)].to_vec();
+    let mut parent_live: Vec<WorldlineState> = world.live[w].clone();
+    {
+        let st = world.runtime.worldlines().get(&child).expect("child frontier").state();
+        if st.state_root() != child_live[k as usize + 1].state_root() || graph_fp(st) != graph_fp(&child_live[k as usize + 1]) {
+            flags.push(format!("diverge:child-frontier-differs-from-source-at-fork@{k}"));
+        }
+        if meta_str(st) != meta_str(&child_live[k as usize + 1]) {
+            flags.push(format!("diverge:child-frontier-metadata-differs-from-source-at-fork@{k}"));
+        }
+    }
+    for tick in f[4].split('/') {
+        if tick == "-" || tick.is_empty() {
+            continue;
+        }
+        for intent in tick.split(',') {
+            let Some((wi, hexprog)) = intent.split_once('.') else { continue };
+            let target = if wi == "9" { child } else { parent };
+            let mut bytes = b"VF".to_vec();
+            bytes.extend(unhex(hexprog));
+            let env = IngressEnvelope::local_intent(
+                IngressTarget::DefaultWriter { worldline_id: target },
+                make_intent_kind("vf/prog"),
+                bytes,
+            );
+            let _ = world.runtime.ingest(env);
+        }
+        match SchedulerCoordinator::super_tick(&mut world.runtime, &mut world.provenance, &mut world.engine) {
+            Ok(records) => {
+                for rec in records {
+                    let id = rec.head_key.worldline_id;
+                    let st = world.runtime.worldlines().get(&id).expect("frontier").state().clone();
+                    if id == child {
+                        child_live.push(st);
+                    } else if id == parent {
+                        parent_live.push(st);
+                    }
+                }
+            }
+            Err(_) => break,
+        }
+    }
+    let prov = &world.provenance;
+    let check = |what: &str, id: WorldlineId, lives: &[WorldlineState], flags: &mut Vec<String>| {
+        let len = prov.len(id).unwrap_or(0) as usize;
+        if len + 1 != lives.len() {
+            flags.push(format!("diverge:{what}:history-length-{len}-live-{}", lives.len() - 1));
+            return;
+        }
+        let cmp = |tag: &str, t: usize, st: &WorldlineState, flags: &mut Vec<String>| {
+            if st.state_root() != lives[t].state_root() {
+                flags.push(format!("diverge:{what}:{tag}@{t}:state-root-differs-from-live"));
+            } else if graph_fp(st) != graph_fp(&lives[t]) {
+                flags.push(format!("diverge:{what}:{tag}@{t}:graph-differs-from-live-same-root"));
+            }
+            if meta_str(st) != meta_str(&lives[t]) {
+                flags.push(format!("diverge:{what}:{tag}@{t}:replay-metadata-differs-from-live"));
+            }
+        };
+        for t in 0..=len {
+            match prov.replay_worldline_state_at(id, &base, wt(t as u64)) {
+                Ok(st) => cmp("replay_at", t, &st, flags),
+                Err(e) => flags.push(format!("diverge:{what}:replay_at@{t}:failed:{}", replay_err(&e))),
+            }
+        }
+        let mut cur = PlaybackCursor::new(CursorId([5; 32]), id, base.root().warp_id, CursorRole::Reader, &base, wt(u64::MAX));
+        let mut order: Vec<usize> = (0..=len).rev().collect();
+        order.extend(0..=len);
+        order.extend((0..=len).filter(|t| t % 2 == 0));
+        order.extend((0..=len).rev().filter(|t| t % 3 == 1));
+        for t in order {
+            match cur.seek_to(wt(t as u64), prov, &base) {
+                Ok(()) => cmp("cursor", t, cur.materialized_state(), flags),
+                Err(e) => flags.push(format!("diverge:{what}:cursor-seek@{t}:failed:{}", seek_err(&e))),
+            }
+        }
+    };
+    check("child", child, &child_live, flags);
+    check("parent", parent, &parent_live, flags);
+    // a checkpoint on the diverged child beyond the fork, then seek across it
+    let clen = child_live.len() - 1;
+    let mut prov2 = world.provenance.clone();
+    if clen > k as usize + 1 {
+        if let Err(e) = prov2.checkpoint(child, &ReplayCheckpoint::from_state(&child_live[clen]).state) {
+            flags.push(format!("diverge:child-checkpoint-rejected@{clen}:{}", hist_err(&e)));
+        }
+        let mut cur = PlaybackCursor::new(CursorId([4; 32]), child, base.root().warp_id, CursorRole::Reader, &base, wt(u64::MAX));
+        for t in [clen, 0, clen, k as usize + 1, clen] {
+            match cur.seek_to(wt(t as u64), &prov2, &base) {
+                Ok(()) => {
+                    if cur.current_state_root() != child_live[t].state_root() || graph_fp(cur.materialized_state()) != graph_fp(&child_live[t]) {
+                        flags.push(format!("diverge:child:cursor-after-checkpoint@{t}:state-differs-from-live"));
+                    }
+                }
+                Err(e) => flags.push(format!("diverge:child:cursor-after-checkpoint@{t}:failed:{}", seek_err(&e))),
+            }
+        }
+    }
+    format!("D:ok:{}:{}", child_live.len() - 1, parent_live.len() - 1)
+}
+
+/// `G:<wl>`: adversarial probe (informational, never an oracle failure): a tick-0 checkpoint whose graph carries an
+/// extra UNREACHABLE node has the same state root as U0; is it accepted, and does a restore through it surface?
+fn scen_garbage(world: &World, f: &[&str]) -> String {
+    let w: usize = f[1].parse().unwrap_or(0);
+    let ctx = Ctx::new(world, w);
+    let base = ctx.live(0).clone();
+    let warp = base.root().warp_id;
+    let Some(store0) = base.store(&warp) else { return "G:nostore".into() };
+    let mut store = store0.clone();
+    store.insert_node(make_node_id("vf/unreachable-garbage"), NodeRecord { ty: make_type_id("vf/garbage") });
+    let Ok(forged) = WorldlineState::from_root_store(store, base.root().local_id) else { return "G:noforge".into() };
+    if forged.state_root() != base.state_root() {
+        return "G:root-differs".into();
+    }
+    let mut prov = world.provenance.clone();
+    match prov.add_checkpoint(ctx.wl(), ReplayCheckpoint::from_state(&forged)) {
+        Err(e) => format!("G:rejected:{}", hist_err(&e)),
+        Ok(()) => {
+            let n = ctx.n();
+            let t = n.min(1) as u64;
+            match prov.replay_worldline_state_at(ctx.wl(), &base, wt(t)) {
+                Ok(st) => {
+                    let same_root = st.state_root() == ctx.live(t as usize).state_root();
+                    let same_graph = graph_fp(&st) == graph_fp(ctx.live(t as usize));
+                    format!("G:accepted:replay{t}:root-{}:graph-{}", if same_root { "same" } else { "differs" }, if same_graph { "same" } else { "differs" })
+                }
+                Err(e) => format!("G:accepted:replay{t}:err:{}", replay_err(&e)),
+            }
+        }
+    }
+}
+
 /// replay on a LocalProvenanceStore goes through a cursor (the replay function itself is crate-private)
 fn warp_core_replay_local(store: &LocalProvenanceStore, w: WorldlineId, base: &WorldlineState, t: u64) -> Option<WorldlineState> {
     let mut c = PlaybackCursor::new(CursorId([6; 32]), w, base.root().warp_id, CursorRole::Reader, base, wt(u64::MAX));
@@ -1101,6 +1297,8 @@ fn main() {
                     "O" if f.len() >= 7 => scen_ops(&world, &f, &mut fl),
                     "S" if f.len() >= 3 => scen_sweep(&world, &f, &mut fl),
                     "F" if f.len() >= 3 => scen_fork(&world, &f, &mut fl),
+                    "D" if f.len() >= 5 => scen_diverge(nwl, &prog, &f, &mut fl),
+                    "G" if f.len() >= 2 => scen_garbage(&world, &f),
                     _ => "badscen".into(),
                 };
                 let idx = outs.len();
